@@ -154,7 +154,51 @@ def _t_coerce_params(srcs):
                         n.body[k:k] = ast.parse("%s = np.asarray(%s)\n" % (a.arg, a.arg)).body
 
 
-TREE_TRANSFORMS = {"@coerce_params": _t_coerce_params, "@kwargs_calls": _t_kwargs_calls, "@strip_docs_annotate": _t_strip_docs_annotate, "@logging": _t_logging}
+def _t_early_exit(srcs):
+    """`if c: ... return/raise  else: rest` becomes `if c: ... return/raise` followed by `rest` (no else after an exit)"""
+    import ast
+
+    def fix(body):
+        out = []
+        for st in body:
+            for fld in ("body", "orelse", "finalbody"):
+                if hasattr(st, fld) and isinstance(getattr(st, fld), list) and getattr(st, fld) and isinstance(getattr(st, fld)[0], ast.stmt):
+                    setattr(st, fld, fix(getattr(st, fld)))
+            if isinstance(st, ast.Try):
+                for h in st.handlers:
+                    h.body = fix(h.body)
+            if isinstance(st, ast.If) and st.orelse and isinstance(st.body[-1], (ast.Return, ast.Raise)):
+                rest = st.orelse
+                st.orelse = []
+                out.append(st)
+                out.extend(rest)
+            else:
+                out.append(st)
+        return out
+    for tree in srcs.values():
+        for n in ast.walk(tree):
+            if isinstance(n, ast.FunctionDef):
+                n.body = fix(n.body)
+
+
+def _t_numpy_alias(srcs):
+    """`import numpy as np` becomes `import numpy`, every use of the alias is spelled `numpy.`"""
+    import ast
+    for tree in srcs.values():
+        has = False
+        for n in ast.walk(tree):
+            if isinstance(n, ast.Import):
+                for a in n.names:
+                    if a.name == "numpy" and a.asname == "np":
+                        a.asname = None
+                        has = True
+        if has:
+            for n in ast.walk(tree):
+                if isinstance(n, ast.Name) and n.id == "np":
+                    n.id = "numpy"
+
+
+TREE_TRANSFORMS = {"@coerce_params": _t_coerce_params, "@early_exit": _t_early_exit, "@numpy_alias": _t_numpy_alias, "@kwargs_calls": _t_kwargs_calls, "@strip_docs_annotate": _t_strip_docs_annotate, "@logging": _t_logging}
 
 
 def rename_locals(path, qual):
